@@ -109,6 +109,8 @@ def gen_cases(ctx):
         fl = random.Random(seed).sample([0, 1, 2], 2)
         da, db = G.gen_valid(seed, flavour=fl[0]), G.gen_valid(seed, flavour=fl[1])
         out.append({'kind': 'seq', 'gen_seed': seed, 'docs': [da, db, da]})
+    # sequences first: a failure that needs the earlier documents of the process is then reported with a replayable case
+    out = [c for c in out if c['kind'] == 'seq'] + [c for c in out if c['kind'] != 'seq']
     nf = 12 if ctx.tier == 'quick' else 150
     for i in range(nf):
         seed = ctx.seed * 100000 + 70000 + i
